@@ -3,11 +3,14 @@ package main
 // Rules added after the seventh campaign of seeded changes.
 
 import (
+	"fmt"
 	"go/ast"
 	"go/token"
 	"go/types"
 	"sort"
 	"strings"
+
+	"golang.org/x/tools/go/cfg"
 )
 
 // ---- value-kind totality -------------------------------------------------------------------------------------------
@@ -573,6 +576,7 @@ func ruleUpdateValuesLoopInvariant(c *Ctx, rule string) {
 			continue
 		}
 		why := ""
+		prechecked := false
 		for _, a := range call.Args[2:] {
 			ast.Inspect(a, func(y ast.Node) bool {
 				id, ok := y.(*ast.Ident)
@@ -594,6 +598,40 @@ func ruleUpdateValuesLoopInvariant(c *Ctx, rule string) {
 				}
 				return true
 			})
+		}
+		// row-dependent values that an earlier pass over the same rows has prepared AND had checked (a call whose
+		// error ends the statement) are refused, if at all, before the first row is changed
+		if why != "" {
+			if rs, ok := loop.(*ast.RangeStmt); ok {
+				ast.Inspect(f.Decl.Body, func(y ast.Node) bool {
+					pre, ok := y.(*ast.RangeStmt)
+					if !ok || pre == rs || pre.End() > rs.Pos() || exprKey(pre.X) != exprKey(rs.X) {
+						return true
+					}
+					checks := false
+					ast.Inspect(pre.Body, func(z ast.Node) bool {
+						if call2, ok := z.(*ast.CallExpr); ok {
+							if fn := f.Callee(call2); fn != nil {
+								if sig, ok := fn.Type().(*types.Signature); ok && sig.Recv() != nil && sig.Results().Len() == 1 && isErrorType(sig.Results().At(0).Type()) {
+									if _, isIface := sig.Recv().Type().Underlying().(*types.Interface); isIface {
+										checks = true
+									}
+								}
+							}
+						}
+						return true
+					})
+					if checks {
+						why = ""
+						prechecked = true
+					}
+					return true
+				})
+			}
+		}
+		if prechecked {
+			c.OK(rule, key, call.Pos(), 2, "the per-row values are prepared and checked for every row by an earlier pass over the same rows")
+			continue
 		}
 		if why != "" {
 			c.Fail(rule, key, call.Pos(), "the values of an UPDATE depend on the row: %s", why)
@@ -1081,4 +1119,240 @@ func ruleGroupByResolution(c *Ctx, rule string) {
 	default:
 		c.OK(rule, key, f.Decl.Pos(), matches, "GROUP BY columns are matched against the select list with DerivedColumn.Matches")
 	}
+}
+
+// ---- path search that follows error values through copies ---------------------------------------------------------
+
+// evalErrCondM decides a condition over error variables whose values are known by name ("nil", "io.EOF",
+// "errTornRecord", …).
+func evalErrCondM(f *Func, cond ast.Expr, errs map[types.Object]string) (val bool, known bool) {
+	e := ast.Unparen(cond)
+	valueOf := func(y ast.Expr) (string, bool) {
+		y = ast.Unparen(y)
+		if isNilIdent(f, y) {
+			return "nil", true
+		}
+		if id, ok := y.(*ast.Ident); ok {
+			if v, ok := errs[f.ObjOf(id)]; ok {
+				return v, true
+			}
+			if pv, ok := f.ObjOf(id).(*types.Var); ok && pv.Pkg() != nil && pv.Parent() == pv.Pkg().Scope() && isErrorType(pv.Type()) {
+				return exprKey(y), true
+			}
+		}
+		if sel, ok := y.(*ast.SelectorExpr); ok {
+			if pv, ok := f.ObjOf(sel.Sel).(*types.Var); ok && !pv.IsField() && isErrorType(pv.Type()) {
+				return exprKey(y), true
+			}
+		}
+		return "", false
+	}
+	switch x := e.(type) {
+	case *ast.UnaryExpr:
+		if x.Op == token.NOT {
+			v, k := evalErrCondM(f, x.X, errs)
+			return !v, k
+		}
+	case *ast.BinaryExpr:
+		switch x.Op {
+		case token.LAND, token.LOR:
+			a, ka := evalErrCondM(f, x.X, errs)
+			b, kb := evalErrCondM(f, x.Y, errs)
+			and := x.Op == token.LAND
+			if (ka && a != and) || (kb && b != and) {
+				return !and, true
+			}
+			if ka && kb {
+				return and, true
+			}
+			return false, false
+		case token.EQL, token.NEQ:
+			a, ka := valueOf(x.X)
+			b, kb := valueOf(x.Y)
+			if !ka || !kb {
+				return false, false
+			}
+			// at least one side must be a tracked variable, otherwise this is not about the errors we follow
+			return (a == b) == (x.Op == token.EQL), true
+		}
+	case *ast.CallExpr:
+		if f.CallIs(x, "errors.Is") && len(x.Args) == 2 {
+			a, ka := valueOf(x.Args[0])
+			b, kb := valueOf(x.Args[1])
+			if ka && kb {
+				return a == b, true
+			}
+		}
+	}
+	return false, false
+}
+
+// pathSearchErrs is pathSearchFlags with, in addition, the identity of error values followed through plain
+// copies: `e2 = e1`, `e2 = errSentinel`, `a, e2 = nil, e1`. seed gives the values known at the start.
+func pathSearchErrs(f *Func, g *Graph, from Loc, seed map[types.Object]string, visit func(ast.Node) Verdict) bool {
+	type item struct {
+		b     *cfg.Block
+		start int
+		flags map[types.Object]bool
+		errs  map[types.Object]string
+	}
+	encode := func(it item) string {
+		var ks []string
+		for o, v := range it.flags {
+			ks = append(ks, fmt.Sprintf("%s@%d=%v", o.Name(), o.Pos(), v))
+		}
+		for o, v := range it.errs {
+			ks = append(ks, fmt.Sprintf("%s@%d=%s", o.Name(), o.Pos(), v))
+		}
+		sort.Strings(ks)
+		return fmt.Sprintf("%d:%d:%s", it.b.Index, it.start, strings.Join(ks, ","))
+	}
+	seen := map[string]bool{}
+	start := item{from.B, from.I + 1, map[types.Object]bool{}, map[types.Object]string{}}
+	for o, v := range seed {
+		start.errs[o] = v
+	}
+	work := []item{start}
+	errValue := func(errs map[types.Object]string, e ast.Expr) (string, bool) {
+		e = ast.Unparen(e)
+		if isNilIdent(f, e) {
+			return "nil", true
+		}
+		switch y := e.(type) {
+		case *ast.Ident:
+			if v, ok := errs[f.ObjOf(y)]; ok {
+				return v, true
+			}
+			if pv, ok := f.ObjOf(y).(*types.Var); ok && pv.Pkg() != nil && pv.Parent() == pv.Pkg().Scope() && isErrorType(pv.Type()) {
+				return exprKey(y), true
+			}
+		case *ast.SelectorExpr:
+			if pv, ok := f.ObjOf(y.Sel).(*types.Var); ok && !pv.IsField() && isErrorType(pv.Type()) {
+				return exprKey(y), true
+			}
+		}
+		return "", false
+	}
+	for len(work) > 0 {
+		it := work[len(work)-1]
+		work = work[:len(work)-1]
+		k := encode(it)
+		if seen[k] {
+			continue
+		}
+		seen[k] = true
+		flags := map[types.Object]bool{}
+		for o, v := range it.flags {
+			flags[o] = v
+		}
+		errs := map[types.Object]string{}
+		for o, v := range it.errs {
+			errs[o] = v
+		}
+		stopped := false
+		for i := it.start; i < len(it.b.Nodes); i++ {
+			n := it.b.Nodes[i]
+			switch visit(n) {
+			case Hit:
+				return true
+			case Cut:
+				stopped = true
+			}
+			if stopped {
+				break
+			}
+			if as, ok := n.(*ast.AssignStmt); ok && len(as.Lhs) == len(as.Rhs) {
+				// right-hand sides are evaluated before any store
+				type upd struct {
+					obj types.Object
+					b   *bool
+					e   *string
+				}
+				var ups []upd
+				for j, l := range as.Lhs {
+					id, ok := l.(*ast.Ident)
+					if !ok || id.Name == "_" {
+						continue
+					}
+					u := upd{obj: f.ObjOf(id)}
+					if cv := f.constOf(as.Rhs[j]); cv != nil && (cv.String() == "true" || cv.String() == "false") {
+						v := cv.String() == "true"
+						u.b = &v
+					} else if isErrorType(f.TypeOf(id)) {
+						if v, ok := errValue(errs, as.Rhs[j]); ok {
+							u.e = &v
+						}
+					}
+					ups = append(ups, u)
+				}
+				for _, u := range ups {
+					delete(flags, u.obj)
+					delete(errs, u.obj)
+					if u.b != nil {
+						flags[u.obj] = *u.b
+					}
+					if u.e != nil {
+						errs[u.obj] = *u.e
+					}
+				}
+			} else if as, ok := n.(*ast.AssignStmt); ok {
+				for _, l := range as.Lhs {
+					if id, ok := l.(*ast.Ident); ok {
+						delete(flags, f.ObjOf(id))
+						delete(errs, f.ObjOf(id))
+					}
+				}
+			}
+			if ds, ok := n.(*ast.DeclStmt); ok {
+				// var e error  — nil
+				if gd, ok := ds.Decl.(*ast.GenDecl); ok {
+					for _, sp := range gd.Specs {
+						if vs, ok := sp.(*ast.ValueSpec); ok && len(vs.Values) == 0 {
+							for _, nm := range vs.Names {
+								if isErrorType(f.TypeOf(nm)) {
+									errs[f.ObjOf(nm)] = "nil"
+								}
+							}
+						}
+					}
+				}
+			}
+		}
+		if stopped {
+			continue
+		}
+		if len(it.b.Succs) == 2 {
+			if info, ok := g.EdgeInfo(it.b, 0); ok && (!info.Case || info.Synth != nil) {
+				if info.Case {
+					info.Cond = info.Synth
+				}
+				val, known := evalErrCondM(f, info.Cond, errs)
+				if !known {
+					cond := ast.Unparen(info.Cond)
+					neg := false
+					if u, ok := cond.(*ast.UnaryExpr); ok && u.Op == token.NOT {
+						neg, cond = true, ast.Unparen(u.X)
+					}
+					if id, ok := cond.(*ast.Ident); ok {
+						if v, has := flags[f.ObjOf(id)]; has {
+							val, known = v != neg, true
+						} else if isCommaOK(f, id) {
+							val, known = !neg, true
+						}
+					}
+				}
+				for si, s := range it.b.Succs {
+					if known && (si == 0) != val {
+						continue
+					}
+					work = append(work, item{s, 0, flags, errs})
+				}
+				continue
+			}
+		}
+		for _, s := range it.b.Succs {
+			work = append(work, item{s, 0, flags, errs})
+		}
+	}
+	return false
 }
